@@ -157,10 +157,21 @@ def expected(pep):
     }
 
 
+def _typed_as_is(v):
+    """the type a library value HAS (no canonicalisation: a numeral the library left as text stays text)"""
+    if isinstance(v, bool):
+        return ['bool', v]
+    if isinstance(v, int):
+        return ['int', v]
+    if isinstance(v, float):
+        return ['float', v]
+    return ['str', v]
+
+
 def _lm(mods, keep_empty=False):
     if mods is None:
         return None
-    out = [[typed(m.val), m.mult] for m in mods]
+    out = [[_typed_as_is(m.val), m.mult] for m in mods]
     if not out and not keep_empty:
         return None
     return out
